@@ -53,6 +53,18 @@ type Env struct {
 	ConnWait time.Duration // reply wait in ViaConn mode (default 20 s)
 	cmu      sync.Mutex
 	conns    map[string]*sharedConn
+
+	listening bool
+}
+
+// Listen starts the server's real listener (an OS-assigned port on loopback), as a user of NewServer + SetHandler +
+// Listen does; the harness' own calls keep using their transport. Close stops it.
+func (e *Env) Listen() error {
+	if err := e.Srv.Listen(); err != nil {
+		return err
+	}
+	e.listening = true
+	return nil
 }
 
 type sharedConn struct {
@@ -98,6 +110,9 @@ func (e *Env) Close() {
 		e.cmu.Unlock()
 		for _, c := range cs {
 			c.p.Close()
+		}
+		if e.listening {
+			e.Srv.Stop()
 		}
 		e.NFS.Close()
 	})
